@@ -30,6 +30,12 @@ EXTRA_FUNCTIONS = {"ofxtools/Client.py": ["OFXClient.serialize"]}
 MUTATORS = {"append", "extend", "insert", "remove", "pop", "clear", "update", "setdefault", "add", "discard", "register",
             "sort", "reverse", "popitem", "__setitem__", "__delitem__", "write", "writelines", "seek", "truncate"}
 MEMO = {"lru_cache", "cache", "cached_property"}
+# process- or thread-wide state of the standard library: writing it changes what later, unrelated calls compute
+AMBIENT_ACCESSORS = {"getcontext": "decimal context", "getlogger": None}
+AMBIENT_SETTERS = {"setcontext": "decimal context", "setlocale": "locale", "install_opener": "urllib opener", "setdefaulttimeout": "socket default timeout",
+                   "seed": "random generator", "tzset": "time zone", "setrecursionlimit": "recursion limit", "setswitchinterval": "interpreter",
+                   "putenv": "environment", "unsetenv": "environment", "chdir": "working directory", "umask": "umask", "setprofile": "interpreter", "settrace": "interpreter"}
+AMBIENT_MODULE_ATTRS = {("os", "environ"): "environment", ("sys", "path"): "import path", ("sys", "modules"): "module table", ("warnings", "filters"): "warning filters"}
 INIT_LIKE = {"__init__", "__set_name__", "__post_init__", "__new__", "__init_subclass__"}
 
 
@@ -62,6 +68,9 @@ def root_of(e):
             return "<module>"
         if isinstance(f, ast.Name) and f.id == "super":
             return "super()"
+        nm = f.attr if isinstance(f, ast.Attribute) else (f.id if isinstance(f, ast.Name) else "")
+        if AMBIENT_ACCESSORS.get(nm):
+            return f"<ambient:{AMBIENT_ACCESSORS[nm]}>"
         return None            # result of a call: owned by the function
     return None
 
@@ -108,6 +117,8 @@ class FnScan:
         if root.startswith("vars(") or root.startswith("getattr("):
             inner = root[root.index("(") + 1:-1]
             return self.classify(inner)
+        if root.startswith("<ambient:"):
+            return "ambient"
         if root == "<module>" or root.startswith("globals"):
             return "module"
         if root == "super()":
@@ -229,6 +240,9 @@ class FnScan:
                         continue
                     if k is not None:
                         self.site(f"mutator:{k}", f"{self.canon(f.value)}.{f.attr}", n)
+                fname = f.attr if isinstance(f, ast.Attribute) else (f.id if isinstance(f, ast.Name) else "")
+                if fname in AMBIENT_SETTERS:
+                    self.site("ambient-setter", f"{text(f)} ({AMBIENT_SETTERS[fname]})", n)
                 if isinstance(f, ast.Name) and f.id in ("setattr", "delattr") and n.args:
                     k = self.classify(root_of(n.args[0]) if not isinstance(n.args[0], ast.Name) else n.args[0].id)
                     if k == "self" and name in INIT_LIKE:
@@ -299,10 +313,10 @@ def alarming(s):
     parameter, or to self of an object that lives for one parse / one model, are frame questions: they are decided
     by the ownership and frame contracts of the functions concerned, and are only *listed* by the census."""
     k = s["kind"]
-    if k in ("global", "nonlocal", "memo-decorator", "mutable-default"):
+    if k in ("global", "nonlocal", "memo-decorator", "mutable-default", "ambient-setter"):
         return True
     what = k.split(":")[-1]
-    if what in ("module", "class", "cls"):
+    if what in ("module", "class", "cls", "ambient"):
         return True
     if what == "self" and s["file"] == "ofxtools/Types.py":
         return True          # the converters are descriptors: one instance serves every model object
